@@ -9,7 +9,7 @@ oracle         the library's bytes re-parsed by Xerces SAX2 inside harness/ser.c
                Python, node by node with the script (no model involved); representability decided from
                the XML recommendations; legacy FormatterToXML compared after parsing
 """
-import os
+import os, re
 from vlib import core
 
 LEVEL = "proof"
@@ -100,6 +100,22 @@ def eol_sensitive(v11, cp):
 
 def has_surrogate(evs):
     return any(is_high(u) or is_low(u) for e in evs for x in e[1:] for u in flat_units(x))
+
+
+# variant flags read from coq/GenSer.v (translator/gen_ser.py regenerates them from the source on every run)
+VARIANT = {"comment_eol_is_error": False, "legacy_10_legal_chars_ok": False, "legacy_11_c1_lsep_refs": False,
+           "legacy_cdata_reopens_at_start": False}
+
+
+def load_variant():
+    try:
+        txt = open(os.path.join(core.COQ, "GenSer.v")).read()
+    except OSError:
+        return
+    for k in VARIANT:
+        m = re.search(r"Definition\s+%s\s*:\s*bool\s*:=\s*(true|false)\s*\." % k, txt)
+        if m:
+            VARIANT[k] = m.group(1) == "true"
 
 
 def split_ver(ver):
@@ -252,8 +268,9 @@ def classify(enc, ver, evs):
                     if restricted(v11, cp):
                         rep = False
                     if kind != "name" and eol_sensitive(v11, cp):
-                        rep = False
-                        cls.add("K-new-1")
+                        rep = False     # no XML representation: an error is required ...
+                        if not VARIANT["comment_eol_is_error"]:
+                            cls.add("K-new-1")    # ... but this variant of the source writes it literally (known finding)
     return rep, cls
 
 
@@ -603,22 +620,22 @@ def legacy_class(enc, ver, evs):
                     allu += an + av
             elif isinstance(x, list):
                 allu += x
-    if any(is_high(u) or is_low(u) for u in allu):
-        return "K-new-4"
-    if v11 and any(u in (0x85, 0x2028) or restricted(True, u) for u in allu):
+    cdata_units = [u for e in evs if e[0] == "C" for u in e[1]]
+    other_units = [u for e in evs if e[0] != "C" for x in e[1:] for u in flat_units(x)]
+    if any(u == 13 or (v11 and (u in (0x85, 0x2028) or restricted(True, u))) for u in cdata_units):
+        return "K-new-7"      # CR (1.1: NEL, LSEP, controls) inside CDATA is written literally
+    if v11 and not VARIANT["legacy_11_c1_lsep_refs"] and any(u in (0x85, 0x2028) or restricted(True, u) for u in other_units):
         return "K-new-3"
-    for e in evs:
-        if e[0] == "C" and 13 in e[1]:
-            return "K-new-7"
-    if not v11:
+    if not v11 and not VARIANT["legacy_10_legal_chars_ok"]:
         for e in evs:
             if e[0] == "T" and any(u in (13, 0x85, 0x2028) for u in e[1]):
                 return "K-new-5"
             if e[0] == "S" and any(u in (9, 10, 13, 0x85, 0x2028) for an, av in e[2] for u in av):
                 return "K-new-5"
-    for e in evs:
-        if e[0] == "C" and any(not enc_can(enc, u) for u in e[1]):
-            return "K-new-6"
+    if not VARIANT["legacy_cdata_reopens_at_start"]:
+        for e in evs:
+            if e[0] == "C" and any(not enc_can(enc, u) for u in e[1]):
+                return "K-new-6"
     return None
 
 
@@ -639,7 +656,10 @@ def run(ctx):
     if not ok_lib:
         ctx.broken.append("library does not build from the working tree: " + liblog[-500:])
         return ctx.finish(LEVEL)
+    # (the variant flags are read after ctx.prove has regenerated GenSer.v)
     proved = ctx.prove(["Properties_C04.v"], ["GenSer", "GenOutopt"], extra_targets=["SerIndentDefs.vo"])
+    load_variant()
+    ctx.notes["variant"] = dict(VARIANT)
     model, ok_m, mlog = core.build_model(FAMILY)
     if not ok_m:
         ctx.broken.append("model extraction/build failed: " + mlog[-500:])
@@ -715,6 +735,7 @@ def flat_units(x):
 
 
 def replay(ctx, path):
+    load_variant()
     core.build_lib("plain")
     impl, ok_h, hlog = core.build_harness("ser", "plain")
     lines = [l for l in open(path) if l.strip() and not l.startswith("#")]
